@@ -445,6 +445,32 @@ def run_itemused(chk, fx, prefix="C03"):
                 chk.violation(r, "%s:%s" % (f["q"], v["n"]), "%s reads `%s = %s` (line %s) and never refers to `%s` again: this record item no longer reaches the state" % (f["q"], v["n"], show(v["init"])[:110], v.get("l"), v["n"]), f["file"], v.get("l"))
 
 
+def run_records(chk, fx, prefix="C03"):
+    r = chk.rule(prefix + ".records", "a keyword handler of opm/input/eclipse/Schedule that walks the records of its keyword (for (record : handlerContext.keyword)) leaves that loop only by finishing it or by throwing: a record that does not apply is skipped with `continue` - a `return` or `break` would silently drop every later record of the keyword", floor=50)
+    from verif.tree import children as _ch
+    for f in fx.fns:
+        if not f.get("body") or not f["file"].startswith(core.REPO + "/opm/input/eclipse/Schedule/"):
+            continue
+        for lp in walk(f["body"]):
+            if not (lp["k"] == "ForRange" and show(strip(lp["range"])).endswith(".keyword")):
+                continue
+            exits = []
+
+            def rec(n, inner):
+                if n.get("k") == "Lambda":
+                    return
+                if n.get("k") == "Return":
+                    exits.append(("return", n["l"]))
+                if n.get("k") == "Break" and not inner:
+                    exits.append(("break", n["l"]))
+                for c in _ch(n):
+                    rec(c, inner or n.get("k") in ("For", "ForRange", "While", "Do", "Switch"))
+            rec(lp["body"], False)
+            chk.instance(r, "%s@%d" % (f["q"], lp["l"]), sample=dict(function=f["q"], record_loop_line=lp["l"], early_exits=exits))
+            for kind, ln in exits:
+                chk.violation(r, "%s:%s@%d" % (f["q"], kind, lp["l"]), "%s leaves the loop over the records of its keyword with `%s` at line %d: the records after this one are never handled" % (f["q"], kind, ln), f["file"], ln)
+
+
 def run_dedupe(chk, fx, prefix="C03"):
     r = chk.rule(prefix + ".dedupe", "Schedule::applyWellProdIndexScaling rescales the connection sets of the well from the WELPI step onwards in place; consecutive well objects may share one connection set (hasSameConnectionsPointers), so the loop scales an object only if it does not share its set with the LAST SCALED one - the branch that scales also records the object as that reference (prev = current) - otherwise a shared set is scaled once per well object that happens to reference it, and how many do is decided by later input", floor=1)
     fs = [f for f in fx.fn("Opm::Schedule::applyWellProdIndexScaling") if f.get("body")]
@@ -499,6 +525,7 @@ def run(chk):
     run_lostupdate(chk, fx, "C03")
     run_dedupe(chk, fx, "C03")
     run_itemused(chk, fx, "C03")
+    run_records(chk, fx, "C03")
     fh = chk.facts(["opm/input/eclipse/Schedule/Schedule.cpp"], files_re="^/repo/opm/input/eclipse/Schedule/", fn_re="^$")
     for q, r in fh.recs.items():
         fx.recs.setdefault(q, r)
